@@ -701,3 +701,7 @@ mod tests {
         );
     }
 }
+
+#[cfg(all(test, pendulum_project_ntpd_rs_verif))]
+#[path = "/verif/harness/ntp-proto/hook_algorithm__mod.rs"]
+mod verif_hook;
